@@ -57,8 +57,8 @@ class CondensedReactionGraph(MolGraph):
         if len(self) == 0 and len(other) == 0:
             return True
 
-        o_labels = label_hash(other, atom_labels=("atom_type", "reaction"))
-        s_labels = label_hash(self, atom_labels=("atom_type", "reaction"))
+        o_labels = label_hash(other, atom_labels=("atom_type",))
+        s_labels = label_hash(self, atom_labels=("atom_type",))
         o_color_array = color_refine_crg(other, atom_labels=o_labels)
         s_color_array = color_refine_crg(self, atom_labels=s_labels)
 
